@@ -305,6 +305,17 @@ impl<'a, R: RealNumberInternalTrait> Interpreter<'a, R> {
             } else {
                 current_procedure.as_ref().unwrap()
             } {
+                // the procedure handed to `apply` is called by this loop, not by a nested one, so that
+                // `apply` in tail position is a proper tail call
+                Procedure::Builtin(BuiltinProcedure { name, .. })
+                    if name.as_str() == native::base::APPLY =>
+                {
+                    let (applied_procedure, applied_args) =
+                        native::base::spread_apply_arguments(args)?;
+                    Self::check_arity(&applied_procedure, &applied_args)?;
+                    current_procedure = Some(applied_procedure);
+                    args = applied_args;
+                }
                 Procedure::Builtin(BuiltinProcedure { body, .. }) => {
                     break body.apply(args, env);
                 }
